@@ -42,6 +42,11 @@ PROPS = [
  ("fix: EndTime read ResetTime without the limiter mutex", ["C20"]),
  ("fix: receiver: the stream table was read and written by concurrent upload handlers", ["C19"]),
  ("fix: receiver: two concurrent first uploads", ["C19"]),
+ ("fix: an MPD request with generated time subtitles for an asset whose video SegmentTimeline has more than one S entry", ["C08", "C12"]),
+ ("fix: a video segment longer than 3 s that straddles a minute boundary", ["C13"]),
+ ("fix: SCTE-35 events were lost in low-latency mode", ["C13", "C09"]),
+ ("fix: an ingest session skipped segments of assets with fractional-millisecond segment ends", ["C16"]),
+ ("fix: generated subtitle cues ended before they started", ["C12"]),
 ]
 
 FINDINGS = json.load(open('/verif/known_findings_manual.json'))['findings']
